@@ -188,6 +188,89 @@ def gen_link_depth_case(idx: int, n: int) -> Dict[str, Any]:
             "compress": r.choice(["", "", "gz"]), "format": r.choice(["gnu", "pax"]), "component": "ext"}
 
 
+LINK_HOP_MODES = ("file", "dir", "sym", "hardname", "hardtarget", "chain_followed", "chain_alone")
+WD_PLACEHOLDER = "<WD>"      # replaced by the working directory of the staged component when the archive is written
+
+
+def link_hop_combos() -> List[Dict[str, Any]]:
+    """A symlink member that is harmless on its own (it resolves to a directory INSIDE the working
+    directory: the working directory itself or a directory 1..3 levels below it) followed by a member
+    that passes through it and then climbs `ups` parent segments.  Lexically (normpath of the member
+    name) such a member always stays inside; where it really lands depends on where the link points,
+    which is only visible once the link exists on disk.
+      depth d         the link sits d directories below the working directory
+      target_depth t  the link resolves to the directory t levels below the working directory
+      ups n           parent segments behind the link, 1 <= n <= d + 1 (lexically inside), n <= t + 2
+    really outside  <=>  n > t."""
+    out = []
+    for mode in LINK_HOP_MODES:
+        for d in range(3):
+            for t in range(4):
+                for n in range(1, min(d + 1, t + 2) + 1):
+                    out.append({"mode": mode, "depth": d, "target_depth": t, "ups": n})
+    return out
+
+
+def gen_link_hop_case(idx: int, n: int) -> Dict[str, Any]:
+    """`n` selects the combination; `idx` seeds the decoration (spelling of the link target, names,
+    leaf, compression, whether the link comes from a first archive and the rest from a second one)."""
+    r = vlib.rng("C18", "linkhop", idx)
+    combos = link_hop_combos()
+    c = combos[n % len(combos)]
+    mode, d, t, ups = c["mode"], c["depth"], c["target_depth"], c["ups"]
+    chain = ["c0", "c1", "c2"]
+    # a victim.txt at every level: every hard-link name resolves to an existing file whichever way it is read
+    members: List[Dict[str, Any]] = [{"name": "victim.txt", "data": "inside victim (top)"}]
+    for k in range(3):
+        members.append({"name": "/".join(chain[:k + 1]), "kind": "dir"})
+        members.append({"name": "/".join(chain[:k + 1]) + "/victim.txt", "data": "inside victim level %d" % (k + 1)})
+    lkname = r.choice(["up", "here", "lk", "latest", "cur rent"])
+    lk = "/".join(chain[:d] + [lkname])
+    form = r.choice(["rel", "rel", "abs"])
+    if form == "abs":
+        target = WD_PLACEHOLDER + "".join("/" + x for x in chain[:t])
+    else:
+        common = min(d, t)
+        target = "/".join([".."] * (d - common) + chain[common:t]) or "."
+        if target != "." and r.random() < 0.3:
+            target = "./" + target
+    members.append({"name": lk, "kind": "sym", "target": target})
+    n_first = len(members)
+    hop = lk + "/" + "/".join([".."] * ups)
+    leaf = r.choice(["escaped.txt", "x", ".bashrc", "victim.txt", "cron.d/job"])
+    if mode == "file":
+        tail = [{"name": hop + "/" + leaf, "data": "WRITTEN BEHIND LINK d%d t%d n%d" % (d, t, ups)}]
+    elif mode == "dir":
+        nd = hop + "/newdir_%d" % r.randint(0, 9)
+        tail = [{"name": nd, "kind": "dir"}, {"name": nd + "/inner.txt"}]
+    elif mode == "sym":
+        tail = [{"name": hop + "/planted", "kind": "sym", "target": "."}]
+    elif mode == "hardname":
+        tail = [{"name": hop + "/hl", "kind": "hard", "target": "victim.txt"}]
+    elif mode == "hardtarget":
+        tail = [{"name": "hl", "kind": "hard", "target": hop + "/victim.txt"},
+                {"name": "hl", "data": "WRITTEN THROUGH HARD LINK BEHIND LINK d%d t%d n%d" % (d, t, ups)}]
+    else:
+        tail = [{"name": "out", "kind": "sym", "target": hop}]
+        if mode == "chain_followed":
+            tail.append({"name": "out/" + leaf, "data": "WRITTEN THROUGH SECOND LINK d%d t%d n%d" % (d, t, ups)})
+    really_outside = ups > t
+    offending: Optional[bool] = (None if mode == "chain_alone" else True) if really_outside else False
+    pre = _benign_members(r, r.randint(0, 1))
+    split = r.random() < 0.25
+    post = _benign_members(r, 1) if (not really_outside or r.random() < 0.3) else []
+    if split:
+        first, second = pre + members, tail + post
+    else:
+        first, second = pre + members + tail + post, None
+    return {"kind": "archive", "idx": idx, "offending": offending, "members": first, "second": second,
+            "cls": "linkhop_%s_d%d_t%d_n%d%s" % (mode, d, t, ups, "_split" if split else ""),
+            "family": "linkhop", "mode": mode, "really_outside": really_outside, "levels_above": max(0, ups - t),
+            "link": {"name": lk, "target": target, "form": form}, "n_members_up_to_link": n_first + len(pre),
+            "compress": r.choice(["", "", "gz"]), "format": r.choice(["gnu", "pax"]),
+            "component": "ext2" if split else "ext"}
+
+
 def gen_copylink_case(idx: int) -> Dict[str, Any]:
     r = vlib.rng("C18", "copylink", idx)
     cls = ["copy_dir_with_outward_symlinks", "link_dir_then_copy_file", "copy_file_odd_name"][idx % 3]
